@@ -439,7 +439,7 @@ func (g *fnGen) runHooks(st *state, when, text string, ord int, names map[string
 		return
 	}
 	for _, h := range g.ct.Hooks {
-		if h.When != when || h.Callee != text || (h.Ord != 0 && h.Ord != ord) {
+		if h.When != when || !h.matchesCallee(text) || (h.Ord != 0 && h.Ord != ord) {
 			continue
 		}
 		h.used = true
@@ -475,6 +475,11 @@ func (g *fnGen) runHooks(st *state, when, text string, ord int, names map[string
 					gt := g.ghostTypes[id.Name]
 					if isNilType(ty) {
 						t = g.R.zero(gt)
+					} else if _, gi := gt.Underlying().(*types.Interface); gi && ty != nil {
+						if _, vi := ty.Underlying().(*types.Interface); !vi {
+							// a concrete value stored into an interface-typed ghost: Go's implicit conversion
+							t = S("mk-iface", fmt.Sprint(g.R.tagOf(ty)), g.R.boxT(ty, t))
+						}
 					}
 					st.ghost[id.Name] = g.define("g!"+id.Name, g.R.sortOf(gt), t)
 					continue
@@ -546,7 +551,10 @@ func (g *fnGen) callEffects(cc *ssa.CallCommon, instr ssa.Instruction, li *loopI
 	if g.ct != nil {
 		text := g.anchor(cc.Pos(), "")
 		for _, h := range g.ct.Hooks {
-			if h.Callee == text && h.Kind == "set" {
+			if o, known := g.callPosOrd[cc.Pos()]; known && h.Ord != 0 && h.Ord != o {
+				continue
+			}
+			if h.matchesCallee(text) && h.Kind == "set" {
 				if id, ok := h.Target.(*SIdent); ok {
 					li.modGhost[id.Name] = true
 				} else if c, ok := h.Target.(*SCall); ok {
@@ -912,4 +920,14 @@ func (g *fnGen) lockReleased(st *state, cc *ssa.CallCommon, site string) {
 		}
 		g.oblige(st, "lockinv", fmt.Sprintf("%s:%s.%s#%d", site, li.Struct, li.Mutex, i+1), cc.Pos(), "", t, "lock invariant holds when the mutex is released: "+li.Src)
 	}
+}
+
+// matchesCallee: a hook names its call sites by the source text of the callee, or — with a
+// leading '~' — by a regular expression over that text (every matching call site).
+func (h *Hook) matchesCallee(text string) bool {
+	if strings.HasPrefix(h.Callee, "~") {
+		re, err := regexp.Compile(h.Callee[1:])
+		return err == nil && re.MatchString(text)
+	}
+	return h.Callee == text
 }
